@@ -1,5 +1,8 @@
 /* ASSUMED models of the libc functions src/ftp/Parsing.cc calls (each listed under "trusted" in unit.json).
- * Never variadic (units/README.md): the variadic ones are defined with the call site's argument types and assert their format. */
+ * Never variadic (units/README.md): the variadic ones are defined with the call site's argument types and assert their format.
+ * This file is linked with the contract, i.e. it is NOT run through the automatic safety-check instrumentation (36 generated
+ * assertions per copied byte made the SAT problem 6x larger): every model instead asserts its memory precondition
+ * explicitly ("... stub: ..." obligations), which is where "the ip[] copy stays within MAX_IPSTRLEN" is checked. */
 typedef unsigned long size_t;
 #include "cv_ghost.h"
 #define CV_LONG_MAX 9223372036854775807L
@@ -9,6 +12,7 @@ typedef unsigned long size_t;
 char cv_ftp_ipBuf[1024];
 
 struct cv_ghost cvg;
+extern size_t g;     /* the contract's ghost index (contract.c): arbitrary */
 
 int cv_addr_is_any(void) { return cv_addr_any; }
 int cv_addr_is_v6(void) { return cv_addr_v6; }
@@ -27,21 +31,23 @@ int cv_addr_assign(const char *s)
 {
     ++cv_addr_assigns;
     cv_addr_src = s;
-    _Bool any, v6;                 /* arbitrary verdicts */
-    cv_addr_any = any;
-    cv_addr_v6 = v6;
+    int any, v6;                   /* arbitrary verdicts */
+    cv_addr_any = any != 0;
+    cv_addr_v6 = v6 != 0;
     if (cv_snprintf_calls > 0 && s == cv_snprintf_dst) {
         for (int i = 0; i < 4; ++i)
             if (cv_snprintf_h[i] < 0 || cv_snprintf_h[i] > 255)
                 cv_addr_any = 1;   /* not a dotted quad: the real object is emptied, isAnyAddr() becomes true */
     }
     if (cv_addr_want_text) {
+        /* length of the assigned text = offset of its first NUL (-1: none within MAX_IPSTRLEN / the object), and its byte at the
+         * ghost index g */
+        __CPROVER_assert(__CPROVER_r_ok(s, 1), "Ip::Address stub: the assigned text is readable");
         int k = 0;
-        while (k < CV_MAX_IPSTRLEN && s[k] != 0) {
-            cv_addr_text[k] = s[k];
+        while (k < CV_MAX_IPSTRLEN && __CPROVER_r_ok(s + k, 1) && s[k] != 0)
             ++k;
-        }
-        cv_addr_len = k < CV_MAX_IPSTRLEN ? k : -1;
+        cv_addr_len = (k < CV_MAX_IPSTRLEN && __CPROVER_r_ok(s + k, 1)) ? k : -1;
+        cv_addr_text_g = (cv_addr_len >= 0 && g < (size_t)cv_addr_len) ? s[g] : 0;
     }
     return !cv_addr_any;
 }
@@ -53,7 +59,10 @@ int cv_addr_assign(const char *s)
 int sscanf(const char *str, const char *fmt, int *a0, int *a1, int *a2, int *a3, int *a4, int *a5)
 {
     __CPROVER_assert(fmt_is(fmt, "%d,%d,%d,%d,%d,%d", 18), "sscanf stub: only the \"%d,%d,%d,%d,%d,%d\" format is modelled");
-    (void)*str;
+    __CPROVER_assert(__CPROVER_r_ok(str, 1), "sscanf stub: str is readable");
+    __CPROVER_assert(__CPROVER_w_ok(a0, sizeof(int)) && __CPROVER_w_ok(a1, sizeof(int)) && __CPROVER_w_ok(a2, sizeof(int)) &&
+                     __CPROVER_w_ok(a3, sizeof(int)) && __CPROVER_w_ok(a4, sizeof(int)) && __CPROVER_w_ok(a5, sizeof(int)),
+                     "sscanf stub: the six targets are writable ints");
     int n, v[6]; _Bool o[6];
     __CPROVER_assume(n >= -1 && n <= 6);
     int *t[6] = { a0, a1, a2, a3, a4, a5 };
@@ -67,71 +76,91 @@ int sscanf(const char *str, const char *fmt, int *a0, int *a1, int *a2, int *a3,
 }
 
 /* snprintf(dst, n, "%d.%d.%d.%d", h1, h2, h3, h4): writes at most n bytes, NUL-terminated when n > 0; the text is at most
- * 4*11+3 = 47 characters.  The characters themselves are left arbitrary (havocked); the four values are remembered. */
+ * 4*11+3 = 47 characters.  The characters themselves are arbitrary; the four values are remembered. */
 int snprintf(char *dst, size_t n, const char *fmt, int h1, int h2, int h3, int h4)
 {
     __CPROVER_assert(fmt_is(fmt, "%d.%d.%d.%d", 12), "snprintf stub: only the \"%d.%d.%d.%d\" format is modelled");
+    __CPROVER_assert(n == 0 || __CPROVER_w_ok(dst, n), "snprintf stub: dst has room for n bytes");
     size_t len;
     __CPROVER_assume(len >= 7 && len <= 47);
     if (n > 0) {
         size_t w = len < n ? len : n - 1;
-        __CPROVER_havoc_slice(dst, w + 1);
-        dst[w] = 0;
+        char any[48];
+        for (size_t i = 0; i < 48; i++)
+            if (i <= w) dst[i] = i < w ? any[i] : 0;
     }
     cv_snprintf_dst = dst; cv_snprintf_h[0] = h1; cv_snprintf_h[1] = h2; cv_snprintf_h[2] = h3; cv_snprintf_h[3] = h4;
     cv_snprintf_calls++;
     return (int)len;
 }
 
-/* strtol(nptr, &end, 10), C11 7.22.1.4, "C" locale: white space, optional sign, decimal digits; no digits => 0 and end = nptr;
- * out of range => LONG_MAX / LONG_MIN (errno, which the caller does not read, is not modelled). */
+/* ---- the string under scan: set by the harness (cv_set_string).  cv_slen is the offset of its FIRST NUL. ---- */
+static const char *cv_str; static size_t cv_slen;
+void cv_set_string(const char *s, size_t len) { cv_str = s; cv_slen = len; }
+
+/* strtol(nptr, &end, 10), C11 7.22.1.4 -- ASSUMED CONTRACT, loop-free: nptr points into the string; the function consumes
+ * k bytes, none of them the terminator; either no conversion (end = nptr, result 0) or `digits` >= 1 digits end at end[-1]
+ * and end[0] is not a digit; the result is an ARBITRARY long (by assumption: the decimal written there), or LONG_MAX/LONG_MIN
+ * with the ghost flag ovf when that decimal does not fit (errno, which the caller does not read, is not modelled). */
 long strtol(const char *nptr, char **endptr, int base)
 {
     __CPROVER_assert(base == 10, "strtol stub: only base 10 is modelled");
-    const char *p = nptr;
-    while (*p == ' ' || (*p >= '\t' && *p <= '\r')) p++;
-    int neg = 0;
-    if (*p == '-') { neg = 1; p++; }
-    else if (*p == '+') p++;
-    unsigned long acc = 0; int ovf = 0, digits = 0;
-    while (*p >= '0' && *p <= '9') {
-        unsigned long d = (unsigned long)(*p - '0');
-        if (acc > (CV_ULONG_MAX - d) / 10) ovf = 1;
-        else acc = acc * 10 + d;
-        digits++; p++;
+    __CPROVER_assert(__CPROVER_same_object(nptr, cv_str) && nptr >= cv_str && (size_t)(nptr - cv_str) <= cv_slen,
+                     "strtol stub: nptr points into the NUL-terminated string (not past its terminator)");
+    size_t rem = cv_slen - (size_t)(nptr - cv_str);
+    size_t k; int digits; long r; _Bool o; int ovf = 0;
+    __CPROVER_assume(k <= rem && digits >= 0 && (size_t)digits <= k);
+    if (digits == 0) { k = 0; r = 0; }
+    else {
+        __CPROVER_assume(nptr[k - 1] >= '0' && nptr[k - 1] <= '9' && !(nptr[k] >= '0' && nptr[k] <= '9'));
+        if (o) { ovf = 1; __CPROVER_assume(r == CV_LONG_MAX || r == CV_LONG_MIN); }
     }
-    long r;
-    if (digits == 0) { p = nptr; r = 0; }
-    else if (neg) {
-        if (ovf || acc > (unsigned long)CV_LONG_MAX + 1UL) { r = CV_LONG_MIN; ovf = 1; }
-        else if (acc == (unsigned long)CV_LONG_MAX + 1UL) r = CV_LONG_MIN;
-        else r = -(long)acc;
-    } else {
-        if (ovf || acc > (unsigned long)CV_LONG_MAX) { r = CV_LONG_MAX; ovf = 1; }
-        else r = (long)acc;
-    }
-    if (endptr) *endptr = (char *)p;
+    __CPROVER_assert(endptr == 0 || __CPROVER_w_ok(endptr, sizeof(char *)), "strtol stub: endptr is writable");
+    if (endptr) *endptr = (char *)nptr + k;
     if (cv_strtol_calls < 2) {
-        cv_strtol_nptr[cv_strtol_calls] = nptr; cv_strtol_end[cv_strtol_calls] = p; cv_strtol_val[cv_strtol_calls] = r;
+        cv_strtol_nptr[cv_strtol_calls] = nptr; cv_strtol_end[cv_strtol_calls] = nptr + k; cv_strtol_val[cv_strtol_calls] = r;
         cv_strtol_digits[cv_strtol_calls] = digits; cv_strtol_ovf[cv_strtol_calls] = ovf;
     }
     cv_strtol_calls++;
     return r;
 }
 
+/* strchr(s, c), c != 0 -- ASSUMED CONTRACT, loop-free: s points into the string; returns a position q >= s before the
+ * terminator with *q == c such that no earlier byte equals c, or NULL when no byte before the terminator equals c.
+ * "No earlier byte" is assumed at the ghost index g only (g is arbitrary, and the contract states its claim at the same g). */
 char *strchr(const char *s, int c)
 {
-    for (;; s++) {
-        if (*s == (char)c) return (char *)s;
-        if (*s == 0) return 0;
+    __CPROVER_assert(__CPROVER_same_object(s, cv_str) && s >= cv_str && (size_t)(s - cv_str) <= cv_slen,
+                     "strchr stub: s points into the NUL-terminated string");
+    __CPROVER_assert((char)c != 0, "strchr stub: searching for the terminator is not modelled");
+    size_t rem = cv_slen - (size_t)(s - cv_str);
+    _Bool found; size_t k;
+    if (found) {
+        __CPROVER_assume(k < rem && s[k] == (char)c);
+        __CPROVER_assume(!(g < k) || s[g] != (char)c);
+        return (char *)s + k;
     }
+    __CPROVER_assume(!(g < rem) || s[g] != (char)c);
+    return 0;
 }
 
+/* strncpy(dst, src, n), C11 7.24.2.4 -- ASSUMED CONTRACT with a constant-index loop: src points into the string; exactly n
+ * bytes of dst are written: byte i is NON-ZERO for i < strlen(src) and ZERO from there on (exact), its VALUE is exact at the
+ * ghost index g (dst[g] == src[g]) and arbitrary elsewhere (the contract states the text equality at the same arbitrary g).
+ * Reading src byte by byte at a symbolic offset was the dominant SAT cost; this keeps one symbolic read. */
 char *strncpy(char *dst, const char *src, size_t n)
 {
-    size_t i = 0;
-    for (; i < n && src[i] != 0; i++) dst[i] = src[i];
-    for (; i < n; i++) dst[i] = 0;
+    __CPROVER_assert(n == 0 || __CPROVER_w_ok(dst, n), "strncpy stub: dst has room for the n bytes strncpy always writes");
+    __CPROVER_assert(__CPROVER_same_object(src, cv_str) && src >= cv_str && (size_t)(src - cv_str) <= cv_slen,
+                     "strncpy stub: src points into the NUL-terminated string");
+    size_t rem = cv_slen - (size_t)(src - cv_str);     /* strlen(src) */
+    for (size_t i = 0; i < n; i++) {
+        char c;
+        if (i < rem) __CPROVER_assume(c != 0);
+        else c = 0;
+        dst[i] = c;
+    }
+    if (g < n && g < rem) dst[g] = src[g];
     return dst;
 }
 
